@@ -116,6 +116,8 @@ pub fn check(c: &Case, ctx: &mut Ctx) -> Result<(), Failure> {
     let (mut checked, mut skipped) = (0u64, 0u64);
     for (i, bar) in c.bars.iter().enumerate() {
         let tb = map_bar(bar, &c.tr);
+        // identity events (tele.rs) hit the instance fed the transformed stream
+        crate::tele::step(&mut b, &c.cfg);
         let (oa, ob) = if scalar { (a.next_scalar(bar.c), b.next_scalar(tb.c)) } else { (a.next_bar(bar), b.next_bar(&tb)) };
         let t = i + 1;
         big = big.max(if scalar { bar.c.abs() } else { bar.max_abs_price() });
@@ -368,6 +370,9 @@ pub fn run(g: &mut Global) {
         "arbitrary-factor relations for dimensionless outputs are checked only where every comparison the implementation makes (flat-window test, consecutive closes for OBV, consecutive typical prices for MFI) is exactly equal or separated by >= 1e-9 relative".into(),
     ];
     g.random("random", g.tier.pick(60000, 3000000), &|| strategy(None), &check);
+    // identity events (tele.rs): at one or two steps the instance is replaced by its clone, by a used instance
+    // (same or longer periods) that clone_from()s it, or by its serde round trip; nothing may change
+    g.random("events", g.tier.pick(20000, 400000), &|| crate::tele::wrap(strategy(None)), &|t: &crate::tele::TCase<Case>, ctx: &mut Ctx| crate::tele::check_wrapped(t, ctx, t.case.bars.len(), t.case.cfg.n(), check));
     if g.tier == Tier::Thorough {
         // every k in -40..=40 visited
         for k in -40i32..=40 {
